@@ -108,6 +108,7 @@ PREDS = {
     "true": lambda x: True,
     "lt2": lambda x: x < 2,
 }
+REMOVED = {"odd": "even", "ge2": "lt2"}      # filter predicate of the specification -> what the program removes
 KEYS = {
     "id": lambda x: x,
     "mod2": lambda x: x % 2,
@@ -247,7 +248,8 @@ def build(prog, ntags=0, stream_kwargs=None, sink_factory=None):
         elif k == "starmap":
             s = U[0].starmap(_uf(STARFUNCS[nd["f"]]))
         elif k == "filter":
-            s = U[0].filter(_uf(PREDS[nd["f"]]))
+            # (the aliases of the fluent API: remove(p) = filter(not p), concat() = flatten(), scan = accumulate)
+            s = U[0].remove(_uf(PREDS[REMOVED[nd["f"]]])) if nd["f"] in REMOVED else U[0].filter(_uf(PREDS[nd["f"]]))
         elif k == "accumulate":
             kw = {}
             if nd["lits"] and nd["f"] != "freq":
@@ -256,7 +258,8 @@ def build(prog, ntags=0, stream_kwargs=None, sink_factory=None):
                 kw["returns_state"] = True
             if nd["b2"]:
                 kw["with_state"] = True
-            s = U[0].frequencies() if nd["f"] == "freq" else U[0].accumulate(_uf(BINS[nd["f"]]), **kw)
+            s = U[0].frequencies() if nd["f"] == "freq" else \
+                (U[0].scan if nd.get("m") == 1 else U[0].accumulate)(_uf(BINS[nd["f"]]), **kw)
         elif k == "slice":
             s = U[0].slice(nd["n"], None if nd["m"] == -1 else nd["m"], nd["k"])
         elif k == "partition":
@@ -274,7 +277,7 @@ def build(prog, ntags=0, stream_kwargs=None, sink_factory=None):
                 kw["maxsize"] = nd["m"]
             s = U[0].unique(**kw)
         elif k == "flatten":
-            s = U[0].flatten()
+            s = U[0].concat() if nd.get("b1") else U[0].flatten()
         elif k == "pluck":
             s = U[0].pluck(list(nd["lits"]) if nd["b1"] else nd["lits"][0])
         elif k == "collect":
